@@ -6,6 +6,7 @@ import (
 	"fmt"
 	"io"
 	"net/http"
+	"strings"
 	"time"
 
 	"github.com/hashicorp/raft"
@@ -29,10 +30,16 @@ func (api *HTTP) handleDeleteSession(w http.ResponseWriter, r *http.Request, ses
 		return
 	}
 
+	// Like in handlePostMessage: the quit message is relayed to other clients,
+	// so it must not contain CR, LF or NUL (RFC 2812, section 2.3.1).
+	quitmessage := req.Quitmessage
+	if idx := strings.IndexAny(quitmessage, "\n\r\x00"); idx > -1 {
+		quitmessage = quitmessage[:idx]
+	}
 	msg := &robust.Message{
 		Session: session,
 		Type:    robust.DeleteSession,
-		Data:    req.Quitmessage,
+		Data:    quitmessage,
 	}
 	if err := api.applyMessageWait(msg, 10*time.Second); err != nil {
 		if err == raft.ErrNotLeader {
